@@ -7,7 +7,9 @@ Driver for C16.  For one case `pl <pairs> <filters>\t<observation>` it
        `IsComponents`, i.e. disjoint piles, interval = union of members, share a pile iff
        chained, every feature once),
      * a filtered `Piles` result is the validated component list with images selected by the
-       filter and intervals unchanged,
+       filter and intervals unchanged; a filter that inspects the piles of the pair's images
+       (`L l S E C Q` tokens) is evaluated on the FINAL piles, on the first call too: an image is
+       listed iff the filter, asked after the call returned, accepts its pair (`K=`),
      * every accepted feature's `Location()` is the pile that contains it and `Mate()` is its
        pair mate with the link intact,
  (3) compares the model's observation with the implementation's.
@@ -32,12 +34,57 @@ def parsePair (s : String) : Option PairIn :=
 def parsePairs (s : String) : Option (List PairIn) :=
   if s == "-" then some [] else (s.splitOn ",").mapM parsePair
 
-/-- `n` ↦ nil filter, a 0/1 string ↦ accepted pair ids -/
-def parseFilter (s : String) : Option (Nat → Bool) :=
-  if s == "n" then none
-  else
-    let cs := s.toList
-    some fun id => cs.getD id '0' == '1'
+/-- the pile-inspecting filters of the harness (`c16Filter`), on the piles `a`, `b` of the pair's
+    images A and B (`Loc.Len() = e - s`, `Loc.Start() = s`, `Loc.End() = e`):
+    `L k` both at least `k` long, `l k` one of them, `S k` both start at or after `k`, `E k` one ends
+    at or before `k`, `C q` coverage (`A.Len()*100 ≥ A.Loc.Len()*q ∨ …`, the filter of the repository's
+    TestPiler), `Q` the images lie in different piles -/
+def locFilter (fs : Feats) (kind : Char) (k : Int) : LocFilter := fun id pa pb =>
+  match pa, pb with
+  | some a, some b =>
+    let la := a.e - a.s
+    let lb := b.e - b.s
+    if kind == 'L' then decide (la ≥ k) && decide (lb ≥ k)
+    else if kind == 'l' then decide (la ≥ k) || decide (lb ≥ k)
+    else if kind == 'S' then decide (a.s ≥ k) && decide (b.s ≥ k)
+    else if kind == 'E' then decide (a.e ≤ k) || decide (b.e ≤ k)
+    else if kind == 'Q' then !(a.loc == b.loc && a.s == b.s && a.e == b.e)
+    else if kind == 'C' then
+      match fs.lookup (2 * id), fs.lookup (2 * id + 1) with
+      | some ka, some kb => decide ((ka.e - ka.s) * 100 ≥ la * k) || decide ((kb.e - kb.s) * 100 ≥ lb * k)
+      | _, _ => false
+    else false
+  | _, _ => false
+
+/-- a filter token: `n`, a 0/1 mask over pair ids, or a pile-inspecting filter -/
+inductive Flt
+  | nil
+  | mask (cs : List Char)
+  | loc (kind : Char) (k : Int)
+
+def parseFlt (s : String) : Option Flt :=
+  if s == "n" then some .nil
+  else match s.toList with
+    | [] => none
+    | c :: rest =>
+      if c == '0' || c == '1' then some (.mask (c :: rest))
+      else if c == 'Q' then (if rest.isEmpty then some (.loc 'Q' 0) else none)
+      else if "LlSEC".toList.contains c then (parseInt (String.ofList rest)).map (.loc c)
+      else none
+
+/-- the filter on pair ids a token amounts to when the images sit in the piles `ps`
+    (`none` = nil filter) -/
+def Flt.on (fs : Feats) (ps : List Pile) : Flt → Option (Nat → Bool)
+  | .nil => none
+  | .mask cs => some fun id => cs.getD id '0' == '1'
+  | .loc c k => some ((locFilter fs c k).on ps)
+
+/-- what a pile-inspecting filter would answer on features that are not yet located in a pile
+    (`Feature.Loc` still the `Contig`: `Len() = Start() = End() = 0`); only used for the tag that
+    counts the cases on which the time of evaluation matters -/
+def staleOn (fs : Feats) (c : Char) (k : Int) : Nat → Bool := fun id =>
+  let st (i : Nat) : Option Pile := (fs.lookup i).map fun key => ⟨key.loc, 0, 0, []⟩
+  locFilter fs c k id (st (2 * id)) (st (2 * id + 1))
 
 def parsePile (s : String) : Option Pile :=
   match s.splitOn ":" with
@@ -152,14 +199,20 @@ def featWhy (fs : Feats) (nilFilter : Bool) (ps : List Pile) (fo : List FeatObs)
 def abuts (fs : Feats) : Bool :=
   fs.any fun f => fs.any fun g => f.2.loc == g.2.loc && f.2.e == g.2.s && f.1 != g.1
 
-/-- groups the observation tokens after `A=` into (P, F) calls -/
-def groupCalls : List String → Option (List (String × String))
+/-- groups the observation tokens after `A=` into (P, F, K) calls -/
+def groupCalls : List String → Option (List (String × String × String))
   | [] => some []
-  | p :: f :: rest =>
-    if p.startsWith "P=" && f.startsWith "F=" then
-      (groupCalls rest).map (((p.drop 2).toString, (f.drop 2).toString) :: ·)
+  | p :: f :: k :: rest =>
+    if p.startsWith "P=" && f.startsWith "F=" && k.startsWith "K=" then
+      (groupCalls rest).map (((p.drop 2).toString, (f.drop 2).toString, (k.drop 2).toString) :: ·)
     else none
   | _ => none
+
+/-- `K=`: ids of the accepted pairs the filter accepts when asked after the call -/
+def parseK (s : String) : Option (List Nat) :=
+  if s == "-" then some [] else (s.splitOn ".").mapM parseNat
+
+def showK (ids : List Nat) : String := if ids.isEmpty then "-" else ".".intercalate (ids.map toString)
 
 def handleCase (xs : List PairIn) (filters : List String) (obs : String) : Verdict :=
   if !inputOK xs then { status := "skip", detail := "ill-formed input (start > end or one id with two keys)" } else
@@ -169,32 +222,52 @@ def handleCase (xs : List PairIn) (filters : List String) (obs : String) : Verdi
     if !a.startsWith "A=" then
       (if obs.startsWith "panic" || obs == "hang" then fail s!"implementation {obs.take 80}" ["panic"] else bad "observation")
     else
-    match groupCalls calls with
-    | none => bad "observation calls"
-    | some calls =>
+    match groupCalls calls, filters.mapM parseFlt with
+    | none, _ => bad "observation calls"
+    | _, none => bad "filter token"
+    | some calls, some flts =>
       if calls.length ≠ filters.length then bad "call count" else
       let implAdds := (a.drop 2).toString
       -- model
       let (P, oks) := Piler.new.addAll xs
       let ref := canon (P.piles none)
       let order := firstIds xs []
-      let modelCall (f : Option (Nat → Bool)) : String :=
-        let ps := applyFilter f ref
+      let accIds := (((xs.zip oks).filter (·.2)).map (·.1.id)).mergeSort (fun a b => decide (a ≤ b))
+      let modelCall (f : Flt) : String :=
+        -- the model's `Piles`: `piles` for nil / mask filters, `pilesLoc` (filter evaluated on the
+        -- final piles) for pile-inspecting ones
+        let ps := match f with
+          | .nil => ref
+          | .mask cs => canon (P.piles (some fun id => cs.getD id '0' == '1'))
+          | .loc c k => canon (P.pilesLoc (locFilter P.feats c k))
+        let kstr := match f with
+          | .nil => "n"
+          | .mask cs => showK (accIds.filter fun id => cs.getD id '0' == '1')
+          | .loc c k => showK (accIds.filter ((locFilter P.feats c k).on (P.piles none)))
         let fl := order.flatMap fun id => [2 * id, 2 * id + 1]
         let fstr := fl.map fun i =>
           let m := if i % 2 == 0 then i + 1 else i - 1
           s!"{i}:{idxOf ref i}:{m}:1"
-        s!"P={showPiles ps} F=" ++ (if fstr.isEmpty then "-" else ";".intercalate fstr)
-      let model := s!"A={showBits oks} " ++ " ".intercalate (filters.map fun f => modelCall (parseFilter f))
+        s!"P={showPiles ps} F=" ++ (if fstr.isEmpty then "-" else ";".intercalate fstr) ++ s!" K={kstr}"
+      let model := s!"A={showBits oks} " ++ " ".intercalate (flts.map modelCall)
       -- statement
       let want := expectAdds xs []
       let fs := specFeats xs want
+      let specIds := (((xs.zip want).filter (·.2)).map (·.1.id))
+      let staleSensitive (f : Flt) : Bool := match f with
+        | .loc c k => specIds.any fun id => staleOn fs c k id != (locFilter fs c k).on ref id
+        | _ => false
       let nmerged := ref.any fun p => p.imgs.length > 1
       let tags :=
         (if nmerged then ["nt", "merged"] else ["no-merge"]) ++
         [if xs.length ≤ 6 then "n<=6" else "n>6"] ++
         (if want.contains false then ["dup-pair"] else []) ++
         (if filters.any (· ≠ "n") then ["filter"] else []) ++
+        (if flts.any (fun f => match f with | .loc .. => true | _ => false) then ["pile-filter"] else []) ++
+        (match flts.head? with | some (.loc ..) => ["pile-filter-first-call"] | _ => []) ++
+        (match flts.head? with
+          | some f => if staleSensitive f then ["first-call-filter-differs-on-unlocated-features"] else []
+          | none => []) ++
         (if filters.length > 1 then ["repeated-piles"] else []) ++
         (if abuts fs then ["abutting"] else []) ++
         (if fs.any (fun f => f.2.s == f.2.e) then ["empty-interval"] else []) ++
@@ -205,14 +278,21 @@ def handleCase (xs : List PairIn) (filters : List String) (obs : String) : Verdi
         -- the reference used for filtered calls must itself satisfy the statement
         { status := "bad-line", detail := "model piles do not pass checkPiles: " ++ whyNot fs ref }
       else
-        let why := (filters.zip calls).findSome? fun (f, (ps, fo)) =>
+        let why := ((filters.zip flts).zip calls).findSome? fun ((f, fl), (ps, fo, ko)) =>
           match parsePiles ps, parseFeats fo with
           | some ps, some fo =>
-            let flt := parseFilter f
+            -- the filter of this call on the final piles (the validated components)
+            let flt := fl.on fs ref
             let pw :=
               if f == "n" then (if checkPiles fs ps then none else some (whyNot fs ps))
-              else if canon ps == applyFilter flt ref then none
-              else some "filtered-piles-are-not-the-components-with-images-selected"
+              else if canon ps != applyFilter flt ref then
+                some "filtered-piles-are-not-the-components-with-images-selected"
+              else match parseK ko with
+                | none => some "unparsable-observation"
+                | some ks =>
+                  -- listed iff the filter, asked after the call returned, accepts the pair
+                  if canon ps == applyFilter (some fun id => ks.contains id) ref then none
+                  else some "listed-images-are-not-those-whose-pair-the-filter-accepts-after-the-call"
             match pw with
             | some w => some w
             | none => featWhy fs (f == "n") ps fo
